@@ -46,9 +46,18 @@ def run(ck):
             files.append((role, "f%d.slice" % j, t))
         extra = ["--diagnostic-format", "json"]
         if kind == "io":
-            what = rng.choice(["missing-file", "not-slice", "directory-as-source"])
+            what = rng.choice(["missing-file", "not-slice", "directory-as-source", "path-through-a-file", "symlink-loop", "dangling-symlink"])
             if what == "missing-file":
                 extra.append(rng.choice(["nope.slice", "sub/nope.slice"]))
+            elif what == "path-through-a-file":
+                # a path whose parent is a regular file: it cannot be examined, which is an error like any other unreadable input
+                extra += rng.choice([[], ["-R"]]) + ["f0.slice/inner.slice"]
+            elif what == "symlink-loop":
+                files.append(("L", "loop.slice", "loop.slice"))
+                extra += rng.choice([[], ["-R"]]) + ["loop.slice"]
+            elif what == "dangling-symlink":
+                files.append(("L", "dangling.slice", "nowhere.slice"))
+                extra += rng.choice([[], ["-R"]]) + ["dangling.slice"]
             elif what == "not-slice":
                 files.append(("X", "notes.txt", "module M\n"))
                 extra.append("notes.txt")
